@@ -1134,6 +1134,17 @@ BUILTINS = {
     "isinstance": _py_isinstance, "hasattr": _py_hasattr,
     "getattr": _py_getattr, "setattr": _py_setattr,
     "frozenset": frozenset, "repr": repr, "bytes": bytes,
+    "next": next, "iter": iter, "map": map, "filter": filter,
+    "divmod": divmod, "round": round, "pow": pow, "slice": slice,
+    "callable": callable, "format": format, "ord": ord, "chr": chr,
+    "bytearray": bytearray, "id": id,
+    "RuntimeError": ExcClass("RuntimeError"), "OSError": ExcClass("OSError"),
+    "StopIteration": ExcClass("StopIteration"),
+    "AssertionError": ExcClass("AssertionError"),
+    "ZeroDivisionError": ExcClass("ZeroDivisionError"),
+    "FileNotFoundError": ExcClass("FileNotFoundError"),
+    "RuntimeWarning": ExcClass("RuntimeWarning"),
+    "FutureWarning": ExcClass("FutureWarning"),
     "True": True, "False": False, "None": None,
     "ValueError": ExcClass("ValueError"), "KeyError": ExcClass("KeyError"),
     "IndexError": ExcClass("IndexError"), "TypeError": ExcClass("TypeError"),
@@ -1346,6 +1357,61 @@ def _itemgetter(*keys):
     return get
 
 
+class ModelExitStack:
+    """contextlib.ExitStack: contexts entered through the stack are left in
+    reverse order when the stack is left"""
+    _strict_attrs = True
+
+    def __init__(self):
+        self._todo = []
+
+    def __enter__(self):
+        return self
+
+    def __exit__(self, *a):
+        self.close()
+        return False
+
+    def enter_context(self, cm):
+        if isinstance(cm, Opaque):
+            return cm
+        v = lookup_attr(None, cm, "__enter__", None)()
+        self._todo.append(lambda: lookup_attr(None, cm, "__exit__", None)(
+            None, None, None))
+        return v
+
+    def callback(self, fn, *a, **k):
+        self._todo.append(lambda: fn(*a, **k))
+        return fn
+
+    def push(self, cm):
+        self._todo.append(lambda: lookup_attr(None, cm, "__exit__", None)(
+            None, None, None))
+        return cm
+
+    def pop_all(self):
+        new = ModelExitStack()
+        new._todo, self._todo = self._todo, []
+        return new
+
+    def close(self):
+        while self._todo:
+            self._todo.pop()()
+
+
+class ModelNullContext:
+    _strict_attrs = True
+
+    def __init__(self, enter_result=None):
+        self.enter_result = enter_result
+
+    def __enter__(self):
+        return self.enter_result
+
+    def __exit__(self, *a):
+        return False
+
+
 def _stdlib_models():
     import collections
     import functools
@@ -1379,6 +1445,9 @@ def _stdlib_models():
             neg=op.neg, eq=op.eq, ne=op.ne, lt=op.lt, le=op.le, gt=op.gt,
             ge=op.ge, and_=op.and_, or_=op.or_, not_=op.not_,
             contains=op.contains, getitem=op.getitem),
+        "contextlib": namespace(
+            "contextlib", ExitStack=ModelExitStack,
+            nullcontext=ModelNullContext),
         "collections": namespace(
             "collections", namedtuple=collections.namedtuple,
             OrderedDict=collections.OrderedDict,
